@@ -47,6 +47,29 @@ func kvLookupVisitsEveryTable(r *core.Run) {
 			r.Check(ok, "lookup-visits-every-table", name, site(r, instrPos(call)),
 				"every iteration asks the table (the per-table call dominates the loop's back edge)",
 				"some iterations skip the table without asking it (a continue before Table."+m+"): keys living in the skipped tables are invisible to this operation")
+			// the operations that aggregate over the whole store (iteration, statistics) never
+			// leave the loop early: an empty or uninteresting table must not end the walk
+			if (m == "Range" || m == "RangeHKey" || m == "Stats") && l.Yield == nil && l.Header != nil {
+				early := ""
+				for b := range l.Region() {
+					if b == l.Header {
+						continue
+					}
+					for _, sb := range b.Succs {
+						if !l.Region()[sb] && sb != l.Header {
+							early = site(r, instrPos(b.Instrs[len(b.Instrs)-1]))
+						}
+					}
+					if len(b.Instrs) > 0 {
+						if _, isRet := b.Instrs[len(b.Instrs)-1].(*ssa.Return); isRet {
+							early = site(r, instrPos(b.Instrs[len(b.Instrs)-1]))
+						}
+					}
+				}
+				r.Check(early == "", "lookup-visits-every-table", name+" walks to the end", site(r, l.Pos()),
+					"the loop over the tables ends only when every table was visited",
+					"the walk over the tables can end early (at "+early+"): the tables that were not reached are invisible to this operation — for the background expiry scan their expired and idle keys are never removed")
+			}
 			break
 		}
 	}
